@@ -11,7 +11,8 @@ stage 2  TLC emits every distinct ordering of critical events (test / load / qge
 stage 3  independently: stateless bounded-preemption DFS over schedules of the real code, plus
          VERIF_SEED-randomised deep schedules.
 stage 4  the event trace of EVERY executed schedule (stages 2 and 3) is validated by TLC against
-         spec/PoolConc_Trace.tla - the same Rules operators, total monitor naming the failing clause.
+         spec/PoolConc_Trace.tla - the same Rules operators, total monitor naming the failing clause
+         (each worker task validates its own batch; the verdict on a schedule is TLC's, never Python's).
 """
 from __future__ import annotations
 
@@ -230,9 +231,6 @@ def _prep(dense):
         _PREPARED["points"] = c02drv.prepare(dense=dense)
         _PREPARED["dense"] = dense
     return c02drv
-
-
-SHORT = {"K": "K"}
 
 
 def _short(decisions):
